@@ -419,10 +419,10 @@ func Check(c Case) *kit.Violation {
 		if v := kit.Guard("API handler", func() { h.ServeHTTP(rec, req) }); v != nil {
 			return kit.Failf("request %d %s %s produces=%q Accept=%q outcome=%s: %s", ri, method, target, offers, lines, rq.Outcome, v.Msg)
 		}
-		ct := rec.Header().Get("Content-Type")
+		ct := rec.Result().Header.Get("Content-Type")
 		body := rec.Body.String()
 		desc := fmt.Sprintf("request %d %s %s declared=%q (API default %q) responses=%v Accept=%q cred=%s outcome=%s -> status %d, Content-Type %q, WWW-Authenticate %q, body %q, handler ran %d time(s), error responder invoked %d time(s)",
-			ri, method, target, offers, c.defaultType(), op.Codes, lines, rq.Cred, rq.Outcome, rec.Code, ct, rec.Header()["Www-Authenticate"], clip(body), call.ran, len(log))
+			ri, method, target, offers, c.defaultType(), op.Codes, lines, rq.Cred, rq.Outcome, rec.Code, ct, rec.Result().Header["Www-Authenticate"], clip(body), call.ran, len(log))
 
 		// wantErrorResponder: the answer must come from the error responder, exactly once, nothing else writes.
 		wantErrorResponder := func(tag string, nothingNegotiatedIsJSON bool) *kit.Violation {
@@ -473,7 +473,7 @@ func Check(c Case) *kit.Violation {
 			if v := wantErrorResponder("AUTH", true); v != nil {
 				return v
 			}
-			www := rec.Header()["Www-Authenticate"]
+			www := rec.Result().Header["Www-Authenticate"]
 			if len(www) != 1 {
 				return kit.Failf("CHALLENGE %s; want exactly one WWW-Authenticate challenge naming realm %q", desc, c.Realm)
 			}
